@@ -34,6 +34,12 @@ type KW struct {
 	Canonical string // README name of the algorithm
 	ID        int    // README id
 	WFKLen    int    // size of the wrapped file key
+	// StdUnwrap: the kit-side unwrap uses crypto/rsa directly instead of
+	// kit's crypto package. kit rebuilds the rsa.PrivateKey from the JWK on
+	// every call, without the CRT values, which makes one 4096-bit private-key
+	// operation cost 75 ms (7 ms with crypto/rsa on the parsed key); the
+	// kit-side wrap still goes through kit's crypto package.
+	StdUnwrap bool
 	sym       []byte
 	rsa       *rsa.PrivateKey
 	jwkKey    jwk.Key
@@ -75,7 +81,7 @@ var KWs = func() []*KW {
 		{Label: "A256CBC-NOPAD", Name: "A256CBC-NOPAD", Canonical: "A256CBC-NOPAD", ID: 4, WFKLen: 32, sym: symKey(32, 0x55)},
 		{Label: "RSA-OAEP-256/2048", Name: "RSA-OAEP-256", Canonical: "RSA-OAEP-256", ID: 5, WFKLen: 256, rsa: r2},
 		{Label: "RSA(alias)/2048", Name: "RSA", Canonical: "RSA-OAEP-256", ID: 5, WFKLen: 256, rsa: r2},
-		{Label: "RSA-OAEP-256/4096", Name: "RSA-OAEP-256", Canonical: "RSA-OAEP-256", ID: 5, WFKLen: 512, rsa: r4},
+		{Label: "RSA-OAEP-256/4096", Name: "RSA-OAEP-256", Canonical: "RSA-OAEP-256", ID: 5, WFKLen: 512, rsa: r4, StdUnwrap: true},
 	}
 	for _, k := range l {
 		var err error
@@ -128,6 +134,8 @@ func (k *KW) KitUnwrap(wrapped []byte, algorithm string) ([]byte, error) {
 		return nil, fmt.Errorf("unwrap function was handed algorithm %q, key is for %q", algorithm, k.Canonical)
 	}
 	switch {
+	case k.rsa != nil && k.StdUnwrap:
+		return rsa.DecryptOAEP(sha256.New(), nil, k.rsa, wrapped, nil)
 	case k.rsa != nil:
 		return kitcrypto.DecryptPrivateKey(wrapped, algorithm, k.jwkKey, nil)
 	case k.ID == 1:
